@@ -26,7 +26,7 @@ def _call_periodic(loop: asyncio.BaseEventLoop, name, interval, callback):
 
     def run(handle, fn=callback):
         r = fn()
-        if r:
+        if r and handle.delegate is not None:  # delegate is None when the callback cancelled its own timer
             if interval == 0:
                 handle.delegate = loop.call_soon(run, handle)
             else:
